@@ -13,7 +13,7 @@
 (*   tokens (rows / columns counted in characters).                                                  *)
 (* Layer 3, expectation: the program itself is the expected AST (nothing layout- or spelling-        *)
 (*   dependent occurs in it); alias references are replaced by what they finally name.               *)
-EXTENDS Naturals, Integers, Sequences, FiniteSets, TLC, NumTable
+EXTENDS Naturals, Integers, Sequences, FiniteSets, FiniteSetsExt, TLC, NumTable
 
 Keywords == {"module", "struct", "interface", "enum", "custom", "typealias", "Result", "Sequence", "Dictionary", "bool", "int8",
              "uint8", "int16", "uint16", "int32", "uint32", "varint32", "varuint32", "int64", "uint64", "varint62", "varuint62",
@@ -218,13 +218,13 @@ SpanFacts(placed, el) ==
   LET sub == {i \in 1..Len(placed) : placed[i].el # <<>> /\ IsPrefix(el, placed[i].el)}
       firsts == {i \in sub : (placed[i].el = el \/ placed[i].el = el \o <<"id">>) /\ placed[i].role \in {"first", "first+name"}}
       names == {i \in sub : placed[i].el = el \o <<"id">>}
-      lo == CHOOSE i \in sub : \A j \in sub : i <= j
-      hi == CHOOSE i \in sub : \A j \in sub : j <= i
-      fi == IF firsts = {} THEN lo ELSE CHOOSE i \in firsts : \A j \in firsts : i <= j IN
+      lo == Min(sub)
+      hi == Max(sub)
+      fi == IF firsts = {} THEN lo ELSE Min(firsts) IN
   [el |-> el, first |-> Loc(placed[fi].s), lo |-> Loc(placed[lo].s), hi |-> Loc(placed[hi].e),
    ends |-> {Loc(placed[i].e) : i \in sub},
-   name |-> IF names = {} THEN <<>> ELSE LET n1 == CHOOSE i \in names : \A j \in names : i <= j
-                                              n2 == CHOOSE i \in names : \A j \in names : j <= i IN
+   name |-> IF names = {} THEN <<>> ELSE LET n1 == Min(names)
+                                              n2 == Max(names) IN
                                           <<Loc(placed[n1].s), Loc(placed[n2].e)>>]
 Els(placed) == {placed[i].el : i \in 1..Len(placed)} \ {<<>>}
 ====================================================================================================
